@@ -63,6 +63,7 @@ fn judge(input: &[u8], size: usize, loc: &mut Local) {
 }
 
 pub fn run(ctx: &Ctx) {
+    ctx.enable_trace_pass(ctx.tier.pick(20000u64, 200000u64));
     ctx.set_rule("case = (byte string, size); all strings of length <= L over {00,'a',C3,A9,E2,82,AC,FF} (multi-byte sequences that can be cut) x all sizes 0..=L+2; large sizes against inputs of size-1/size/size+1 bytes; all 4096 four-byte id strings in every id position of a message; non-trivial = enough bytes available and size > 0");
     let l = ctx.tier.pick(6u32, 7u32);
     let fam = strings_over(&ZA, l, "z");
@@ -173,6 +174,64 @@ pub fn run(ctx: &Ctx) {
                 }
             };
             judge(&input, size, loc);
+        }));
+    }
+    // adjacent id fields: a character split across the boundary between two 4-byte fields must be
+    // treated per field (application id | context id; header ECU id | session id bytes)
+    {
+        // first field: all 4096 strings over the alphabet; start of the neighbour: continuation / lead / NUL / ASCII
+        let next: Vec<[u8; 4]> = vec![[0xA9, b'T', b'X', 0], [0x82, 0xAC, b'x', 0], [0xAC, 0, 0, 0], [0x9F, 0x98, 0x80, 0], [b'C', b'T', b'X', 0], [0, 0, 0, 0], [0xC3, 0xA9, 0, 0], [0xFF, b'a', 0, 0], [0x80, 0x80, 0x80, 0x80], [0xBF, 0xBF, 0xBF, 0]];
+        let firsts: Vec<[u8; 4]> = {
+            let mut v: Vec<[u8; 4]> = vec![];
+            for j in 0..4096usize {
+                let mut j2 = j;
+                let mut a = [0u8; 4];
+                for k in 0..4 {
+                    a[k] = ZA[j2 % 8];
+                    j2 /= 8;
+                }
+                v.push(a);
+            }
+            // lead bytes of 4-byte characters
+            for a in [[b'a', b'b', b'c', 0xF0], [b'a', b'b', 0xF0, 0x9F], [b'a', 0xF0, 0x9F, 0x98], [b'A', b'P', b'P', 0xC3], [b'A', b'P', 0xE2, 0x82]] {
+                v.push(a);
+            }
+            v
+        };
+        let sp = Space::new(&[firsts.len(), next.len(), 2]);
+        let s2 = sp.clone();
+        let (firsts, next) = (&firsts, &next);
+        ctx.run_family(Family::new("c19.adjacent_ids", sp.size(), format!("{} four-byte strings (all 4096 over the alphabet + lead bytes of 3/4-byte characters at the end) in one id field x {} neighbour fields that begin with matching continuation bytes, other continuation bytes, a lead byte, NUL, ASCII, 0xFF x {{application id | context id, header ECU id | session id}}: each id is the clean prefix of ITS OWN four bytes", firsts.len(), next.len()), move |i, loc| {
+            let c = s2.coords(i);
+            let m = msg_with(0x04 | 0x08, 1, Some(ext(MSTP_LOG, 4, "APP", "CTX")), payload_for(true, Some(MSTP_LOG), 0), None);
+            let (mut b, sites) = encode(&m);
+            let (l1, l2) = if c[2] == 0 { ("apid", "ctid") } else { ("ecu", "session") };
+            let o1 = sites.sites.iter().find(|s| s.2 == l1).unwrap().0;
+            let o2 = o1 + 4; // the context id follows the application id, the session id the ECU id
+            b[o1..o1 + 4].copy_from_slice(&firsts[c[0]]);
+            b[o2..o2 + 4].copy_from_slice(&next[c[1]]);
+            let e1 = clean_field(&b[o1..o1 + 4]);
+            let e2 = clean_field(&b[o2..o2 + 4]);
+            loc.evals += 1;
+            loc.transitions += 1;
+            loc.traces += 1;
+            loc.state(i, true);
+            match catch(|| dlt_message(&b, None, false).map(|(rest, pm)| (rest.len(), pm))) {
+                Ok(Ok((0, ParsedMessage::Item(pm)))) => {
+                    let ok = if c[2] == 0 {
+                        pm.extended_header.as_ref().map(|e| (e.application_id.as_str(), e.context_id.as_str())) == Some((e1.as_str(), e2.as_str()))
+                    } else {
+                        pm.header.ecu_id.as_deref() == Some(e1.as_str()) && pm.header.session_id == Some(u32::from_be_bytes([b[o2], b[o2 + 1], b[o2 + 2], b[o2 + 3]]))
+                    };
+                    if ok {
+                        loc.outcome("ids ok");
+                    } else {
+                        loc.outcome("wrong id");
+                        loc.violation("adjacent fields influence an id", format!("{} bytes {} followed by {} bytes {}: parsed ext {:?} ecu {:?} session {:?}; expected first id {:?}{}", l1, hex(&b[o1..o1 + 4]), l2, hex(&b[o2..o2 + 4]), pm.extended_header.as_ref().map(|e| (e.application_id.clone(), e.context_id.clone())), pm.header.ecu_id, pm.header.session_id, e1, if c[2] == 0 { format!(", second id {:?}", e2) } else { String::new() }), json!({"input_hex": hex_short(&b)}));
+                    }
+                }
+                other => loc.violation("id bytes break message parsing", format!("message with {} {} / {} {} does not parse completely: {:?}", l1, hex(&b[o1..o1 + 4]), l2, hex(&b[o2..o2 + 4]), other.map(|r| r.map(|x| x.0))), json!({"input_hex": hex_short(&b)})),
+            }
         }));
     }
     // ids of a message obey the same rule
